@@ -58,24 +58,54 @@ def _settings(n: int, tier: str, steps: int | None = None):
     return settings(**kw)
 
 
+class _Best:
+    """Remembers the smallest failing case seen, so a crash inside Hypothesis' shrinker cannot lose a finding."""
+
+    def __init__(self):
+        self.v: Violation | None = None
+        self.size = 0
+
+    def offer(self, v: Violation):
+        size = len(canon(v.case))
+        if self.v is None or size < self.size:
+            self.v, self.size = v, size
+
+
+def _finish(best: _Best, exc: BaseException) -> Violation:
+    """Hypothesis itself failed (e.g. an internal shrinker error, Flaky) after at least one violation was observed."""
+    if best.v is None:
+        raise exc
+    best.v.message += f"  [note: Hypothesis aborted shrinking with {type(exc).__name__}: {str(exc)[:120]}; smallest failing case seen is reported]"
+    return best.v
+
+
 def run_given(sub: Sub, tier: str, seed: int, stats: Stats, scale: float = 1.0) -> Violation | None:
     from hypothesis import given
     from hypothesis import seed as hseed
 
     n = max(1, int(sub.n[tier] * scale))
     strat = sub.strategy(tier)
+    best = _Best()
 
     @hseed(seed)
     @_settings(n, tier)
     @given(strat)
     def test(case):
         stats.case()
-        guarded(sub.check, case, stats)
+        try:
+            guarded(sub.check, case, stats)
+        except Violation as v:
+            best.offer(v)
+            raise
 
     try:
         test()
     except Violation as v:
         return v
+    except HarnessError:
+        raise
+    except Exception as e:  # noqa: BLE001
+        return _finish(best, e)
     return None
 
 
@@ -84,11 +114,22 @@ def run_machine(sub: Sub, tier: str, seed: int, stats: Stats, scale: float = 1.0
     from hypothesis.stateful import run_state_machine_as_test
 
     n = max(1, int(sub.n[tier] * scale))
+    best = _Best()
     machine = sub.machine(tier, stats)
+    stats.extra.setdefault("_best_hook", None)
     try:
         run_state_machine_as_test(hseed(seed)(machine), settings=_settings(n, tier, sub.steps[tier]))
     except Violation as v:
         return v
+    except HarnessError:
+        raise
+    except Exception as e:  # noqa: BLE001
+        v = getattr(stats, "last_violation", None)
+        if v is not None:
+            best.offer(v)
+        return _finish(best, e)
+    finally:
+        stats.extra.pop("_best_hook", None)
     return None
 
 
